@@ -125,7 +125,8 @@ def plan(tier, seed, want_tags=None, nrandom=None, maxlen=None, extra=None, choo
         nrandom = 24 if tier == "quick" else 150
     grams += corpus.random_grammars(seed, nrandom, start_gid=len(grams))
     grams += corpus.random_grammars(seed + 7919, nrandom, start_gid=len(grams), classical_only=True)
-    grams += corpus.atom_grammars(tier, start_gid=len(grams))
+    if base:
+        grams += corpus.atom_grammars(tier, start_gid=len(grams))
     if want_tags:
         grams = [g for g in grams if g.tags & set(want_tags)]
     if extra:
@@ -187,6 +188,12 @@ def run_chunk(common, ch, cfgs_of, maxlen, label="engine", sanitize=False):
             cmd = [vlib.CXX, "-std=c++17", "-O1", "-g", "-fsanitize=address,undefined", "-fno-sanitize-recover=all", "-DTAO_PEGTL_VERIF=1",
                    "-I" + os.path.join(vlib.REPO, "include"), "-I" + harness_dir, tu, os.path.join(harness_dir, "vmain.cpp"), "-o", tmp]
         p = subprocess.run(cmd, stdout=subprocess.PIPE, stderr=subprocess.STDOUT, text=True, errors="replace", timeout=1800)
+        if p.returncode != 0 and "linker command failed" in p.stdout and not any(": error:" in l for l in p.stdout.split("\n") if "linker" not in l):
+            # transient (seen under heavy machine load): retry once, compiling vmain.cpp into the same command
+            cmd2 = [c for c in cmd if c != common["vmain_o"]]
+            if os.path.join(harness_dir, "vmain.cpp") not in cmd2:
+                cmd2.insert(-2, os.path.join(harness_dir, "vmain.cpp"))
+            p = subprocess.run(cmd2, stdout=subprocess.PIPE, stderr=subprocess.STDOUT, text=True, errors="replace", timeout=1800)
         if p.returncode != 0:
             errs = [l for l in p.stdout.split("\n") if "error" in l][:6]
             K.error = "compile failed: " + " ;; ".join(errs)[:3000]
